@@ -101,6 +101,15 @@ class Domain:
     def loop_mode(self, flow, body):
         return "fix"
 
+    def local_assign(self, flow, s, rid, name, rhs, op, node):
+        pass
+
+    def at_loop_head(self, flow, s, hv, tag, names):
+        pass
+
+    def ret_value(self, flow, s, expr, func):
+        pass
+
     def forget(self, flow, s, sym):
         """Drop every fact whose key mentions the value symbol `sym`."""
         dead = [k for k in s.d if isinstance(k, tuple) and any(isinstance(x, str) and sym in x for x in k)]
@@ -259,6 +268,9 @@ class Flow:
             ch = kids(n)
             if ch:
                 for s, v in self.value(ch[0], S):
+                    if len(self.stack) > 1:
+                        s = s.copy()
+                        self.dom.ret_value(self, s, ch[0], self.cur_func())
                     o.r.append((s, n, v))
             else:
                 o.r = [(s, n, None) for s in S]
@@ -281,6 +293,7 @@ class Flow:
                         nxt = []
                         for s, v in self.value(ini[0], S):
                             s = s.copy()
+                            self.dom.local_assign(self, s, d["id"], d.get("name"), ini[0], "=", d)
                             s.env[d["id"]] = v if v is not None else d.get("name")
                             self.dom.local_decl(self, s, d)
                             nxt.append(s)
@@ -327,7 +340,10 @@ class Flow:
             s = s.copy()
             for vid in declared:
                 s.env.pop(vid, None)
-            for vid, name in hv.items():
+                s.d.pop(("v", vid), None)
+            if hv is not None and tag and not tag.endswith("'"):
+                self.dom.at_loop_head(self, s, hv, tag, hv)
+            for vid, name in (hv or {}).items():
                 if vid in s.env:
                     sym = "%s#%s" % (name, tag)
                     self.dom.forget(self, s, sym)
@@ -382,7 +398,7 @@ class Flow:
             if inc is not None and nxt:
                 nxt = self.effects(inc, nxt)
             work = self._havoc(nxt, hv, tag, decl)
-        out = Out(self._havoc(exits, {}, tag, decl) if decl else dedupe(exits))
+        out = Out(self._havoc(exits, None, tag, decl) if decl else dedupe(exits))
         out.r = rets
         return out
 
@@ -455,6 +471,7 @@ class Flow:
                             st = st.copy()
                             for k in dead:
                                 st.env.pop(k, None)
+                                st.d.pop(("v", k), None)
                             st._k = None
                             lst[i] = st
                 return dedupe(T), dedupe(F)
@@ -587,6 +604,7 @@ class Flow:
         if l["kind"] == "DeclRefExpr" and l["ref"].get("kind") in ("VarDecl", "ParmVarDecl") \
                 and l["ref"]["id"] in s.env:
             rid = l["ref"]["id"]
+            self.dom.local_assign(self, s, rid, l["ref"]["name"], rhs, op, node)
             if op == "=":
                 s.env[rid] = v if v is not None else l["ref"]["name"]
             else:
@@ -646,6 +664,7 @@ class Flow:
                 s2 = s2.copy()
                 for k in dead:
                     s2.env.pop(k, None)
+                    s2.d.pop(("v", k), None)
                 s2._k = None
             out.append((s2, node, val))
         return out
